@@ -716,7 +716,8 @@ class Interp:
                 full = self.mod.imports[e.id][0]
                 # `import a.b` binds the name a (the top-level package); `import a.b as c` binds the submodule
                 return ('module', full.split('.')[0] if full.split('.')[0] == e.id else full)
-            if e.id in self.mod.imports and self.mod.imports[e.id][0] in ('functools', 'itertools', 'operator', 'math', 'statistics', 're'):
+            if e.id in self.mod.imports and self.mod.imports[e.id][0] in ('functools', 'itertools', 'operator', 'math', 'statistics', 're', 'collections', 'copy', 'urllib.parse', 'os.path',
+                                                                          'pathlib', 'json', 'calendar', 'datetime', 'contextlib', 'csv', 'importlib.resources'):
                 return ('hostattr', f'{self.mod.imports[e.id][0]}.{self.mod.imports[e.id][1]}')
             if e.id in self.mod.imports and getattr(self, 'repo', None) is not None:
                 modname, orig = self.mod.imports[e.id]
@@ -1672,6 +1673,14 @@ class Interp:
                 base[1].attrs['args'] = tuple(args)
                 return None
             self.bad(e, f'super().{m}()')
+        if isinstance(base, (int, float)) and not isinstance(base, bool) and m in ('is_integer', 'bit_length', 'as_integer_ratio', 'hex', 'conjugate', '__abs__', '__int__', '__float__') and not args:
+            if not hasattr(base, m):
+                raise RaiseSig('AttributeError', (m,), e)
+            try:
+                r = getattr(base, m)()
+            except (ValueError, OverflowError) as exc:
+                raise RaiseSig(type(exc).__name__, (str(exc),), e)
+            return tuple(r) if isinstance(r, tuple) else r
         if isinstance(base, AObj):
             kw = dict(getattr(self, '_kwargs', None) or {})
             self._kwargs = {}
